@@ -32,7 +32,7 @@ RULE = ("handler programs of <= 8 ops (status/set/add/clear header, write, flush
         "non-trivial = the program writes data and flushes or writes twice, or hits an error/abort path; distinct by canonical JSON")
 EXHAUSTIVE = {"quick": False, "thorough": False}
 CLAUSES = {}
-PARALLEL = True
+PARALLEL = False   # 1-2 ms per case; forking a pool costs more than it saves
 CASE_TIMEOUT = 20
 
 ERROR_PAGE = (b"<html><title>500: Internal Server Error</title>"
